@@ -341,7 +341,17 @@ func symConv(ex *Exec, tDst, tSrc types.Type, x value) (value, bool) {
 	case *Term:
 		if _, ok := tDst.Underlying().(*types.Basic); ok {
 			if b := tDst.Underlying().(*types.Basic); b.Info()&types.IsString != 0 {
-				ex.unsupported("integer->string conversion of a symbolic value")
+				// string(byte-sized integer): one byte below 0x80, two-byte UTF-8 above
+				if x.w != 8 {
+					ex.unsupported("integer->string conversion of a symbolic value wider than a byte")
+				}
+				ts := ex.ts
+				if ex.branch(ts.Ult(x, ts.BV(8, 0x80))) {
+					return mkStr([]*Term{x}), true
+				}
+				hi := ts.Bin("bvor", ts.BV(8, 0xC0), ts.Bin("bvlshr", x, ts.BV(8, 6)))
+				lo := ts.Bin("bvor", ts.BV(8, 0x80), ts.Bin("bvand", x, ts.BV(8, 0x3F)))
+				return mkStr([]*Term{hi, lo}), true
 			}
 			return symConvInt(ex, tDst, tSrc, x), true
 		}
